@@ -68,11 +68,26 @@ def plan(tier, seed):
     return specs
 
 
+KEYWORD_EVERY = [0]  # every 4th builder call with an argument passes it by its documented parameter name
+
+
 def _apply(obj, sym):
     name, arg = sym
     if arg is None:
         return getattr(obj, name)()
-    return getattr(obj, name)(list(arg) if isinstance(arg, list) else arg)
+    value = list(arg) if isinstance(arg, list) else arg
+    KEYWORD_EVERY[0] += 1
+    if KEYWORD_EVERY[0] % 4 == 0 and name != "based_on":
+        import inspect
+
+        f = getattr(obj, name)
+        try:
+            pname = next(iter(inspect.signature(f).parameters))
+        except (TypeError, ValueError, StopIteration):
+            return f(value)
+        HUB.acc.count("builder_calls_with_the_argument_passed_by_keyword")
+        return f(**{pname: value})
+    return getattr(obj, name)(value)
 
 
 def run_arch_sequence(seq, acc):
